@@ -732,8 +732,8 @@ fn run_world(t: &mut Tape, c: &mut Case, strict: bool) {
                 if strict {
                     // which class is reported, when several apply, is selected by the byte that follows the case
                     // on the tape (0 / no match: the first), so that every pinned case can name its own class
+                    let at = t.consumed().len();
                     let focus = t.u8();
-                    let at = t.consumed().len().saturating_sub(1);
                     let class = classes.iter().find(|k| focus_code(k) == focus).unwrap_or(&classes[0]);
                     c.fail_sig(&hunted(class), format!("{msg} [focus byte {focus} at tape offset {at}]"));
                 }
@@ -763,7 +763,7 @@ pub fn main() {
     ck.assume(&format!("oracle: {} `--no-optional-locks status --porcelain=v2 -z`; only the worktree column and ?/! records are compared (the index equals HEAD, or HEAD is unborn in 1 of 18 cases)", Git::version()));
     ck.assume("mapping of modes: showUntrackedFiles=normal <-> UntrackedFiles::Collapsed, all <-> Files, no <-> None; --ignored=traditional (with normal) <-> emit_ignored(CollapseDirectory) + emit_collapsed(OnStatusMismatch), --ignored=matching (with all) <-> emit_ignored(Matching); submodules, rewrites (rename tracking), sparse checkouts, core.ignoreCase and precomposeUnicode are not exercised");
 
-    ck.sub("world", SubCfg::new(160, 4_000).max_len(700).max_shrink(12), |t, c| run_world(t, c, false));
+    ck.sub("world", SubCfg::new(400, 10_000).max_len(700).max_shrink(12), |t, c| run_world(t, c, false));
     // replays of the pinned known findings (plus two random worlds) with known classes reported
     ck.sub("pinned", SubCfg::new(2, 8).max_len(700).max_shrink(6), |t, c| run_world(t, c, true));
 
